@@ -20,6 +20,7 @@ type CExpr struct {
 	X, Y, Z    *CExpr   // operands: bin X op Y ; index X[Y]; slice X[Y:Z]; field X.Name; un Op X
 	Args       []*CExpr // call args
 	Vars       []string // quantifier variables
+	Trig       [][]*CExpr // explicit triggers
 	ExpandGoal bool     // forally: like forallx, and the expansion is also what is proved when the clause is a goal
 	Expand     bool     // forallx / existsx: a bounded quantifier that must be expanded into a finite conjunction
 	Pos        string
@@ -124,7 +125,7 @@ func lex(src string) ([]tok, error) {
 		if matched {
 			continue
 		}
-		if strings.ContainsRune("+-*/%<>!&|^()[]:,.?", rune(c)) {
+		if strings.ContainsRune("+-*/%<>!&|^()[]:,.?{}", rune(c)) {
 			out = append(out, tok{"op", string(c)})
 			i++
 			continue
@@ -198,12 +199,37 @@ func (p *cparser) parseTop() (*CExpr, error) {
 			}
 			break
 		}
+		// optional Dafny-style triggers: `forall i, q {A[32*i+q]} {f(i)[q]} :: body` — alternative (multi-)patterns
+		var trig [][]*CExpr
+		for p.isOp("{") {
+			p.next()
+			var alt []*CExpr
+			for {
+				te, err := p.parseIff()
+				if err != nil {
+					return nil, err
+				}
+				alt = append(alt, te)
+				if p.isOp(",") {
+					p.next()
+					continue
+				}
+				break
+			}
+			if err := p.expectOp("}"); err != nil {
+				return nil, err
+			}
+			trig = append(trig, alt)
+		}
 		if err := p.expectOp("::"); err != nil {
 			return nil, err
 		}
 		body, err := p.parseTop()
 		if err != nil {
 			return nil, err
+		}
+		if len(trig) > 0 {
+			return &CExpr{Kind: t.s, Vars: vars, X: body, Pos: p.pos, Trig: trig}, nil
 		}
 		if t.s == "forallx" {
 			return &CExpr{Kind: "forall", Vars: vars, X: body, Pos: p.pos, Expand: true}, nil
@@ -1151,6 +1177,14 @@ func substIdent(e *CExpr, name string, repl *CExpr) *CExpr {
 		n.Args = make([]*CExpr, len(e.Args))
 		for i, a := range e.Args {
 			n.Args[i] = substIdent(a, name, repl)
+		}
+	}
+	if e.Trig != nil {
+		n.Trig = make([][]*CExpr, len(e.Trig))
+		for i, alt := range e.Trig {
+			for _, t := range alt {
+				n.Trig[i] = append(n.Trig[i], substIdent(t, name, repl))
+			}
 		}
 	}
 	return &n
